@@ -161,14 +161,25 @@ fn single(t: &mut Tape, obs: &mut Obs) -> R {
 }
 
 fn lists(t: &mut Tape, obs: &mut Obs) -> R {
-    let l = gen_ext_list(t, 12, 60000);
+    let l = if t.chance(12) {
+        // long blocks of minimal extensions: 255 / 256 / 257 ... up to what a 64 KiB block can hold
+        let n = t.pick(&[255usize, 256, 257, 258, 300, 1000, 4000, 13000]);
+        (0..n).map(|k| match t.below(4) {
+            0 => MExt::Unknown(0x4000 + (k % 200) as u16, vec![]),
+            1 => MExt::ExtendedMasterSecret,
+            2 => MExt::Unknown(0x4000 + (k % 200) as u16, vec![k as u8]),
+            _ => MExt::Grease(0x2a2a, vec![]),
+        }).collect()
+    } else {
+        gen_ext_list(t, 12, 60000)
+    };
     let e = encode_ext_list(&l);
     let buf = e.buf;
     if l.len() >= 2 {
         obs.nontrivial(fnv64(&buf));
     }
-    obs.class(&format!("len={}", l.len().min(9)));
-    obs.sample(json!({"extensions": l.iter().map(|x| x.name()).collect::<Vec<_>>(), "bytes": buf.len(), "hex": hex_short(&buf)}));
+    obs.class(&format!("len={}", if l.len() > 12 { ">=255".to_string() } else { l.len().min(9).to_string() }));
+    obs.sample(json!({"extensions": l.iter().take(14).map(|x| x.name()).collect::<Vec<_>>(), "count": l.len(), "bytes": buf.len(), "hex": hex_short(&buf)}));
     for (dn, p) in LIST_PARSERS {
         let r = guard("extension list parser", || match p(&buf) {
             Ok((rem, v)) => Ok((rem.len(), conv::exts(&v), v.iter().map(|x| TlsExtensionType::from(x).0).collect::<Vec<u16>>())),
